@@ -339,7 +339,10 @@ class CompositeType(SerializableType):
                 return c.value
 
         if name.native_value == "_extent_":  # Experimental non-standard extension
-            return _expression.Rational(self.extent)
+            try:
+                return _expression.Rational(self.extent)
+            except TypeError:  # Service types are not serializable, so they have no extent.
+                pass
 
         return super()._attribute(name)  # Hand over up the inheritance chain, this is important
 
